@@ -1,8 +1,8 @@
 package cs
 
 import (
-	"strings"
 	"fmt"
+	"strings"
 
 	"package-operator.run/internal/packages/verifsim/store"
 )
